@@ -11,8 +11,9 @@ import OomdModel.Watcher
             A crash / `std::terminate` / TSan report / deadlock is a bad outcome (handled by the check runner and
             repeated here as clause `alive`).
 `accepts` – the model can produce the trace.  With the trace hooks (`fixes/C14-hooks.patch`) the recorded order of
-            scheduled items and swaps is replayed: queue lengths must be those of a FIFO queue and the probe must
-            equal `OomdModel.Watcher.lww` of the recorded items, in order.  Without hooks the file-operation script
+            scheduled items and swaps is replayed: queue lengths must be those of a FIFO queue, every load must have been
+            decided as the generator labelled its content, and the probe must equal `OomdModel.Watcher.lww` of the
+            recorded items, in order.  Without hooks the file-operation script
             is turned into the canonical schedule (every event handled at once, ticks where the script has them)
             and run through `OomdModel.Watcher.run Fixes.all`; the probe must equal the model's engine, in order –
             except when the directory itself was removed (the moment of re-registration is a scheduling choice),
@@ -168,6 +169,19 @@ def replayItems (items : List Json) : List (Item Nat) × Bool :=
     else acc) ([], 0, true)
   (r.1, r.2.2 && r.2.1 == 0)
 
+/-- the generator's labels against what the real parser + compiler decided for every load the hooks saw:
+an item was scheduled only for content labelled valid, a compile failed only for content labelled invalid
+(cid 0 = a unit without scripted plugins: "empty" contents and real plugins, not labelled) -/
+def labelsOk (cs : List Content) (items : List Json) : Bool :=
+  items.all fun e =>
+    let a := asArr e
+    let w := asStr (a.getD 0 Json.null)
+    let cid := (asInt (a.getD 2 Json.null)).toNat
+    if cid == 0 then true
+    else if w == "add" then (findC cs cid).map (·.valid) == some true
+    else if w == "fail" then (findC cs cid).map (·.valid) == some false
+    else true
+
 def pairsJson (l : List (Nat × Nat)) : Json := Json.arr (l.map fun p => Json.arr #[Json.num p.1, Json.num p.2]).toArray
 
 def handle (j : Json) : Json :=
@@ -177,8 +191,8 @@ def handle (j : Json) : Json :=
   let cs := parseContents (jobj s "contents")
   -- (the async logger's stderr lines can land inside the runtime's "terminate called ... instance of '…'" message)
   let outcome0 := jstr t "outcome"
-  let outcome := if outcome0.startsWith "uncaught:" then "uncaught:" ++ ((outcome0.splitOn "\n").getLast?.getD "")
-                 else outcome0
+  let outcome := if outcome0.startsWith "uncaught:" && (outcome0.splitOn "\n").length > 1
+                 then "uncaught:" ++ ((outcome0.splitOn "\n").getLast?.getD "") else outcome0
   let hasBadnum := cs.any (fun c => c.kind == "badnum")
   if outcome != "ok" then
     let cls := if outcome.startsWith "uncaught:" && hasBadnum then "stoi-escape" else "outcome:" ++ outcome
@@ -226,7 +240,7 @@ def handle (j : Json) : Json :=
       let act := lww sched
       let m0 := modelPerBase cs 0 act
       let m1 := modelPerBase cs 1 act
-      (fifo && obsB == some (m0, m1), "hooks", m0 ++ m1)
+      (fifo && labelsOk cs (jarr t "items") && obsB == some (m0, m1), "hooks", m0 ++ m1)
     else
       let fs0 : Fs := match initDir with | some d => { present := true, files := d } | none => { present := false, files := [] }
       match init Fixes.all (fs0.listing cs) with
